@@ -36,8 +36,12 @@ ASSUMPTIONS = [
     "the inner cache double reports a key as present from the moment its write begins (as DiskCacher does) and removes a partially written entry when the getter fails (as DiskCacher does)",
 ]
 
-KEYS = ["k74", "k408", "k120", "k1"]   # k74/k408 collide in the 16-bit lock table; k120 and k1 are distinct
-assert cachers_mod.ConcurrentCacher(MemoryCacher())._index("k74") == cachers_mod.ConcurrentCacher(MemoryCacher())._index("k408")
+KEYS = ["k74", "k408", "k120", "k1"]   # k74/k408 collide in the 16-bit lock table of the pinned tree; k120 and k1 are distinct
+def _idx(k):
+    return cachers_mod.ConcurrentCacher(MemoryCacher())._index(k)
+# Which slot a key gets is the implementation's business (only that every process agrees on it matters - the real-process
+# sub-checks start their workers with per-process hash salts for that reason); if the tree under test maps k74/k408 to different
+# slots the "colliding" cases are simply cases over distinct keys.
 
 class Injected(Exception):
     pass
@@ -231,7 +235,7 @@ def run_program(case, sched):
     return result, mon, array, lock, cachers
 
 def colliding(a, b):
-    return a != b and {a, b} == {"k74", "k408"}
+    return a != b and _idx(a) == _idx(b)
 
 def verdict(case, sched, result, mon, array, lock, cachers):
     info = dict(parts=case["parts"], pre=case.get("pre", []), topology=case.get("topology", "threads"), trace=sched.trace[:60])
@@ -347,7 +351,7 @@ def classes_sched(case):
     if any(op.get("body") == "raise" for op in ops): out.append("body-raises")
     if any(op.get("nested") for op in ops): out.append("nested")
     keys = {op["key"] for op in ops}
-    if {"k74", "k408"} <= keys: out.append("colliding-keys")
+    if {"k74", "k408"} <= keys and _idx("k74") == _idx("k408"): out.append("colliding-keys")
     if contended(case): out.append("contended")
     if cross_caller_collision_with_nesting(case): out.append("nesting-meets-foreign-colliding-key")
     sw = case.get("_switches", 0)
@@ -588,8 +592,16 @@ def run_real_procs_once(case):
                 box["out"] = list(CobaMultiprocessor(user, case["procs"], case.get("maxtasks", 0)).filter(items))
             except BaseException as e:
                 box["exc"] = e
-        t = threading.Thread(target=target, daemon=True)
-        t.start(); t.join(60)
+        # workers are spawned with Python's default per-process hash salt (./check pins PYTHONHASHSEED=0 for the harness itself):
+        # in real use no two worker processes share a salt, and the processes must still agree on which lock guards a key
+        old_hs = os.environ.get("PYTHONHASHSEED")
+        os.environ["PYTHONHASHSEED"] = "random"
+        try:
+            t = threading.Thread(target=target, daemon=True)
+            t.start(); t.join(60)
+        finally:
+            if old_hs is None: os.environ.pop("PYTHONHASHSEED", None)
+            else: os.environ["PYTHONHASHSEED"] = old_hs
         if t.is_alive():
             import multiprocessing as mp
             for p_ in mp.active_children():
